@@ -34,7 +34,7 @@ CHECKS = {
         level="exploration", ref="DESIGN.md section 4 C06",
         technique="fuzzing by generation + token-/byte-level mutation (lib/mutate_exp.py; Hypothesis-seeded) through subprocesses of the clang ASan+UBSan builds of check-express, exppp, exp2cxx, exp2python; pathological lexical shapes from the statement (10^2..10^5 character remarks/literals, 1..200-deep nesting, NULs, bytes >= 0x80, no final newline); the 17 shipped schemas unchanged; CPU-time ceiling and n..8n scaling probe",
         text="Each case = (bytes, tool, options) run once as a subprocess of the sanitized binary: no sanitizer report, no signal, exit 0, or exit 1..2 with at least one diagnostic line; CPU time below 20 s + 40 us/byte; captured output below 48 MB. Coverage guidance is not used: the tools call exit() deep inside the library and keep parser state in globals, so an in-process target would leak state between inputs (said in the evidence).",
-        note="Input classes: valid, token mutants, byte mutants, shipped-schema mutants, stretched lexical shapes, reference rings of length 1-3 (constants, derived attributes, types, functions, supertypes, interface clauses, INCLUDE of the file itself), semantic single-fault templates, exppp -l sweep. Open findings F71-F74 (fixed-size formatting/name buffers that need > 8 kB identifiers or > 6000-character item lists; assert on an entity name longer than a file name) are excluded by construction with one probe per worker. Buckets = sanitizer kind + innermost repository frame (gdb fallback when the tool's own handler turns the fault into abort())."),
+        note="Input classes: valid, token mutants, byte mutants, shipped-schema mutants, stretched lexical shapes, reference rings of length 1-3 (constants, derived attributes, renamed / aggregate / select types - also selects listing each other directly with outer selects reaching the ring -, functions, supertypes, interface clauses, INCLUDE of the file itself), semantic single-fault templates, exppp -l sweep. Open findings F71-F74 (fixed-size formatting/name buffers that need > 8 kB identifiers or > 6000-character item lists; assert on an entity name longer than a file name) are excluded by construction with one probe per worker. Buckets = sanitizer kind + innermost repository frame (gdb fallback when the tool's own handler turns the fault into abort())."),
     "C12": dict(
         level="exploration", ref="DESIGN.md section 4 C12",
         technique="property-based testing (Hypothesis): generated EXPRESS files (non-literal aggregate bounds: CONSTANTs, expressions, function calls, attributes) and the shipped schemas x drawn run configurations {ASLR on/off (setarch -R), cwd depth, absolute/relative/dot-dot/symlink input path, environment size, LC_ALL, TZ, dirty output directory, earlier run of another schema}; metamorphic oracle: byte-identical output trees and equal exit status over 4 runs per tool",
